@@ -9,10 +9,10 @@ CONSTANTS
   ErrReplies = FALSE
   HostileClasses = {}
   MetaKeys = {}
-  MaxSends = 2
+  MaxSends = 1
   MaxHostile = 0
-  MaxCuts = 1
-  MaxSteps = 8
+  MaxCuts = 2
+  MaxSteps = 7
   Dev = {}
 INVARIANT TypeOK
 INVARIANT Conforms
